@@ -105,14 +105,25 @@ class SimNet:
         self.op_of_task = {}         # task name -> op label (concurrent variant)
         self.latency = None          # callable() -> seconds
 
-    def register(self, scheme, host, port, handler, target=None):
+    def register(self, scheme, host, port, handler, target=None, match=None):
         """several servers may share one (scheme, host, port) and be told apart by request target
-        (path + query); target None = any target.  Host names are case-insensitive."""
-        self.servers.setdefault((scheme, host.lower(), port), {})[target] = handler
+        (path + query); target None = any target.  Host names are case-insensitive.  Several *tenants* may even
+        share one URL (a processor hosting many institutions): `match(request)` tells whose request it is; the
+        handler registered without `match` gets what no tenant claims."""
+        slot = self.servers.setdefault((scheme, host.lower(), port), {}).setdefault(target, [])
+        if match is None:
+            slot[:] = [e for e in slot if e[0] is not None]
+            slot.append((None, handler))
+        else:
+            slot.insert(0, (match, handler))
 
     def handler_for(self, c, req):
         hs = self.servers.get((c.scheme, c.host.lower(), c.port), {})
-        return hs.get(req.target) or hs.get(None)
+        for key in (req.target, None):
+            for match, handler in hs.get(key, ()):
+                if match is None or match(req):
+                    return handler
+        return None
 
     def _op(self):
         sim = self.sim
